@@ -40,6 +40,9 @@ var handShapes = []string{
 	`{ beings { ... on Human { name ... on Human { __typename } } ... on Pet { id kind } } }`,
 	`{ beings { ... on Human { id name ... on Human { __typename } } ... on Pet { kind weight } } }`,
 	`{ humans { pets { kind } } beings { ... on Pet { __typename weight } ... on Human { id phone } } }`,
+	// a helper added for an abstract type condition (fix 580253b; formerly the listed finding C01-node-fragment-in-object)
+	`{ humans { pets { ... on Node { id } kind weight } } }`,
+	`{ beings { ... on Node { id } ... on Human { name } } }`,
 }
 
 func worldFor(seed int64, domain string) *gen.World {
@@ -52,6 +55,9 @@ func worldFor(seed int64, domain string) *gen.World {
 	}
 	if domain == "unions" {
 		opt.UnionBias = true
+	}
+	if domain == "ifaces" {
+		opt.Interfaces = true
 	}
 	if domain == "ids" {
 		opt.IDAlphabet = "#:. '\"/[]!"
@@ -122,6 +128,9 @@ func driveC01(seed int64, tier, out, replay string) {
 				dom := "inD01"
 				if i%2 == 1 {
 					dom = "ids"
+				}
+				if i%5 == 4 {
+					dom = "ifaces" // an interface whose implementers' fields are spread over services
 				}
 				cases = append(cases, fedCase{WorldSeed: ws, OpSeed: rng.Int63(), Cfg: cfgs[(i+j)%len(cfgs)], Domain: dom})
 			}
